@@ -322,3 +322,50 @@ def uniform_reflected_path_reciprocity():
     prove("reciprocal-lengths", eq(A.path_length, B.path_length))
     prove("reciprocal-tof", eq(A.tof, B.tof))
     prove("launch-angle-up-in-both", And(A.theta0 > 0, B.theta0 > 0))
+
+
+def _uniform_directions(reflections, first):
+    """a reflected uniform-ice path with the given number of reflections, leaving upward (first=1) or downward: it leaves
+    along its first leg and arrives along its last leg (whatever happened in between), both as unit vectors"""
+    n = real("n")
+    lo = real("range_lo")
+    hi = real("range_hi")
+    assume(And(n >= 1, lo < hi))
+    ice = new("pyrex.ice_model.UniformIce", n, valid_range=(lo, hi), index_above=1, index_below=1)
+    p0 = vec("p")
+    p1 = vec("q")
+    assume(And(lo < p0[2], p0[2] < hi, lo < p1[2], p1[2] < hi))
+    assume(Or(Not(eq(p0[0], p1[0])), Not(eq(p0[1], p1[1]))))
+    path = new(UT, p0, p1, ice)._reflected_path(reflections, first)
+    pts = path._points
+    tag = "%d-reflections-%s:" % (reflections, "up" if first == 1 else "down")
+    prove(tag + "one-vertex-per-reflection", len(pts) == reflections + 2)
+    for name, got, a, b in (("emitted", path.emitted_direction, pts[0], pts[1]), ("received", path.received_direction, pts[-2], pts[-1])):
+        leg = [b[i] - a[i] for i in range(3)]
+        prove(tag + name + "-direction-is-parallel-to-its-leg",
+              And(eq(got[1] * leg[2] - got[2] * leg[1], 0), eq(got[2] * leg[0] - got[0] * leg[2], 0), eq(got[0] * leg[1] - got[1] * leg[0], 0)))
+        prove(tag + name + "-direction-points-along-its-leg", got[0] * leg[0] + got[1] * leg[1] + got[2] * leg[2] > 0)
+        prove(tag + name + "-direction-is-a-unit-vector", eq(got[0] * got[0] + got[1] * got[1] + got[2] * got[2], 1))
+    # the vertical sense on arrival: flipped once per reflection
+    prove(tag + "arrives-going-%s" % ("up" if first * (-1) ** reflections == 1 else "down"),
+          path.received_direction[2] * (first * (-1) ** reflections) > 0)
+
+
+@harness(clause="uniform-symmetry")
+def uniform_path_directions_one_reflection():
+    _uniform_directions(1, 1)
+
+
+@harness(clause="uniform-symmetry")
+def uniform_path_directions_two_reflections_up():
+    _uniform_directions(2, 1)
+
+
+@harness(clause="uniform-symmetry")
+def uniform_path_directions_two_reflections_down():
+    _uniform_directions(2, -1)
+
+
+@harness(clause="uniform-symmetry", tier="thorough")
+def uniform_path_directions_three_reflections():
+    _uniform_directions(3, -1)
